@@ -36,13 +36,19 @@ fn corridor(d: &Value) -> (Value, [u32; 2], [u32; 2], [u32; 2], [u32; 2]) {
     // stages: each a list of tracks, each a list of link lengths. "M" = single track, "S" = siding
     // (two parallel tracks; with lockouts each track is foul-in, body, foul-out)
     let mut stages: Vec<Vec<Vec<i64>>> = vec![];
+    // all lengths below are METRES: stage lengths are given in 100 m plus, for "M", optional extra metres (stage[2]),
+    // so that a link can be made a few metres longer than a train (two link events inside one simulation step)
+    let foul = foul * 100;
+    let mut track_v: Vec<[Option<i64>; 2]> = vec![];
     for st in ga(d, "stages") {
-        let len = st[1].as_i64().unwrap();
+        let len = st[1].as_i64().unwrap() * 100;
         if st[0].as_str().unwrap() == "M" {
-            stages.push(vec![vec![len]]);
+            stages.push(vec![vec![len + st.get(2).and_then(|x| x.as_i64()).unwrap_or(0)]]);
+            track_v.push([None, None]);
         } else if st[0].as_str().unwrap() == "J" {
             // junction: two plain branches (only as first or last stage): origins / destinations differ per train
-            stages.push(vec![vec![len], vec![len + 1]]);
+            stages.push(vec![vec![len], vec![len + 100]]);
+            track_v.push([None, None]);
         } else {
             let track = |extra: i64| {
                 if lock {
@@ -51,7 +57,9 @@ fn corridor(d: &Value) -> (Value, [u32; 2], [u32; 2], [u32; 2], [u32; 2]) {
                     vec![len + extra + 2 * foul]
                 }
             };
-            stages.push(vec![track(0), track(1)]); // the two tracks differ by 100 m
+            stages.push(vec![track(0), track(100)]); // the two tracks differ by 100 m
+            // optional per-track speeds ["S", len, v_primary, v_alternate]: a switch whose primary branch is the slow one
+            track_v.push([st.get(2).and_then(|x| x.as_i64()), st.get(3).and_then(|x| x.as_i64())]);
         }
     }
     // forward links, numbered in order; fwd[stage][track][pos] = idx
@@ -80,6 +88,7 @@ fn corridor(d: &Value) -> (Value, [u32; 2], [u32; 2], [u32; 2], [u32; 2]) {
         prev_alt: usize,
         lockout: Vec<usize>,
         stage: usize,
+        track: usize,
     }
     let mut links = vec![L::default(); 2 * nf + 1];
     for (si, st) in stages.iter().enumerate() {
@@ -88,6 +97,7 @@ fn corridor(d: &Value) -> (Value, [u32; 2], [u32; 2], [u32; 2], [u32; 2]) {
                 let i = fwd[si][ti][pi];
                 links[i].len = *len;
                 links[i].stage = si;
+                links[i].track = ti;
                 if pi + 1 < tr.len() {
                     links[i].next = fwd[si][ti][pi + 1];
                 } else if si + 1 < stages.len() {
@@ -126,15 +136,16 @@ fn corridor(d: &Value) -> (Value, [u32; 2], [u32; 2], [u32; 2], [u32; 2]) {
             prev_alt: flip(links[i].next_alt),
             lockout: links[i].lockout.iter().map(|x| flip(*x)).collect(),
             stage: links[i].stage,
+            track: links[i].track,
         };
     }
     let mut out = vec![];
     for i in 1..=2 * nf {
         let l = &links[i];
-        let v = vs[l.stage % vs.len()].as_i64().unwrap();
+        let v = track_v[l.stage][l.track % 2].unwrap_or(vs[l.stage % vs.len()].as_i64().unwrap());
         let g = gr.get(l.stage).and_then(|x| x.as_i64()).unwrap_or(0);
-        // elevation in 1/100 m: grade in 1e-4, length in 100 m => rise = g * len (cm); reverse links mirror it
-        let rise = g * l.len * if i > nf { -1 } else { 1 };
+        // elevation in 1/100 m: grade in 1e-4, length in m => rise = g * len / 100 (cm); reverse links mirror it
+        let rise = g * l.len / 100 * if i > nf { -1 } else { 1 };
         out.push(json!({"len": l.len, "flip": flip(i), "next": l.next, "next_alt": l.next_alt,
             "prev": l.prev, "prev_alt": l.prev_alt, "lockout": l.lockout,
             "elevs": [[0, 0], [l.len, rise]],
@@ -146,8 +157,8 @@ fn corridor(d: &Value) -> (Value, [u32; 2], [u32; 2], [u32; 2], [u32; 2]) {
     let w2 = [west[0] as u32, *west.last().unwrap() as u32];
     let e2 = [east[0] as u32, *east.last().unwrap() as u32];
     (
-        // 100 m units for offsets, m/s for speeds, centimetres for elevations
-        json!({"oscale": 0.01, "vscale": 1, "escale": 100, "links": out}),
+        // metres for offsets, m/s for speeds, centimetres for elevations
+        json!({"oscale": 1, "vscale": 1, "escale": 100, "links": out}),
         w2,                                                         // east-bound origins
         e2,                                                         // east-bound destinations
         [flip(e2[0] as usize) as u32, flip(e2[1] as usize) as u32], // west-bound origins
@@ -423,7 +434,17 @@ fn gen(seed: u64, n: usize, tier: &str) -> Vec<Value> {
                 stages.push(json!(["M", if r.chance(1, 2) { r.range(30, 120) } else { r.range(120, 300) }]));
             }
             if i < sid {
-                stages.push(json!(["S", r.range(20, 45)])); // 2..4.5 km
+                // 2..4.5 km; one siding in three has different speeds on its two tracks (often the PRIMARY one slower)
+                if r.chance(1, 3) {
+                    let (a, b) = (*r.pick(&[6i64, 8, 10]), *r.pick(&[16i64, 20, 24]));
+                    if r.chance(2, 3) {
+                        stages.push(json!(["S", r.range(20, 45), a, b]));
+                    } else {
+                        stages.push(json!(["S", r.range(20, 45), b, a]));
+                    }
+                } else {
+                    stages.push(json!(["S", r.range(20, 45)]));
+                }
             }
         }
         if stages.len() == 1 {
@@ -460,6 +481,14 @@ fn gen(seed: u64, n: usize, tier: &str) -> Vec<Value> {
                 tr["vmax"] = json!(*r.pick(&[5i64, 8, 12]));
             }
             trains.push(tr);
+        }
+        // one scenario in four: a single-track link only 0..15 m longer than one of the trains (its Clear event and the
+        // Arrive event of the next link then fall into the same simulation step); never before a first / after a last "J"
+        if r.chance(1, 4) && stages.len() >= 2 {
+            let n = trains[r.range(0, trains.len() as i64 - 1) as usize]["ncars"].as_i64().unwrap();
+            let lm = n * 18 + r.range(0, 15);
+            let pos = r.range(1, stages.len() as i64 - 1) as usize;
+            stages.insert(pos, json!(["M", lm / 100, lm % 100]));
         }
         if r.chance(1, 6) {
             // diamond crossing with a long crossing link; trains of the two lines arrive close together
